@@ -465,6 +465,12 @@ def plan_for(cls, name, worker_id, try_index, timeout=100.0):
         duration = min(timeout * 0.98, max(0.01, timeout * (rnd.random() ** 4) + rnd.choice([0.0, 0.0, 0.05])))
         if rnd.random() < 0.25:
             duration = rnd.choice([1.0, 2.0, 5.0, 0.1 * timeout])
+        # the two steps of an object creation together stay within the timeout of the creation (a waiting worker gives up
+        # after one timeout of the occupied test: anything longer is an overrun by the code's own definition)
+        if "stateless.noop" in cls:
+            duration = min(duration, 0.04 * timeout)
+        elif cls.startswith("original."):
+            duration = min(duration, 0.9 * timeout)
     return status, round(duration, 4)
 
 
